@@ -169,13 +169,15 @@ def jobs(tier, seed, excluded=()):
             params, pre = [], []
             for j in range(nl):
                 params += [("n%d" % j, "int"), ("f%d" % j, "int"), ("v%d" % j, "int")]
-                if j == 0:
+                if j == 0 and second is not None:
+                    pre.append("n0 in %r and f0 == %d and v0 == %d" % (tuple(g), gi % 2, (gi // 2) % 2))
+                elif j == 0:
                     pre.append("n0 in %r and 0 <= f0 <= 1 and 0 <= v0 <= 1" % (tuple(g),))
                 elif j == 1 and second is not None:
                     pre.append("n1 == %d and 0 <= f1 <= 1 and 0 <= v1 <= 1" % second)
                 else:
                     pre.append("0 <= n%d < %d and 0 <= f%d <= 1 and 0 <= v%d <= 1" % (j, n, j, j))
-            smp = [[x for j in range(nl) for x in ((rng.choice(g) if j == 0 else (second if (j == 1 and second is not None) else rng.randrange(n))), rng.randint(0, 1), rng.randint(0, 1))] for _ in range(3)]
+            smp = [[x for j in range(nl) for x in ((rng.choice(g) if j == 0 else (second if (j == 1 and second is not None) else rng.randrange(n))), (gi % 2 if (j == 0 and second is not None) else rng.randint(0, 1)), ((gi // 2) % 2 if (j == 0 and second is not None) else rng.randint(0, 1)))] for _ in range(3)]
             out.append(Job("C11", "C11-%s-alias-g%d" % (tid, gi), "vk.props.c11", "alias", {"tree": tid, "nlines": nl}, params, " and ".join(pre), timeout=150 if tier == "quick" else 300, samples=smp, tree=tid))
     dom = Dom(int_max=9, int_cands=["-3"], str_mode="cand", str_cands=["", 'q"t', "x y"], hex_cands=["0x1f", "1f"], float_cands=["5"])
     out += state_jobs("C11", "vk.props.c11", "block", ["T13", "T13b"], dom, 50, 2, 120, rng, tag="block")
